@@ -97,7 +97,8 @@ func sortStrings(s []string) {
 	}
 }
 
-func genC19(ctx *hx.Ctx, emit func(hx.Case)) {
+func genC19(ctx *hx.Ctx, emit0 func(hx.Case)) {
+	emit := func(c hx.Case) { delete(c, "pre"); emit0(c) } // the regex-compiler history is observed by C01
 	vals := make([]any, 0, len(c01Values))
 	n := 0
 	for _, v := range c01Values {
